@@ -32,8 +32,8 @@ from contracts.c07_genmpo import h_generate_mpo_product, h_generate_mpo_rejects
 from contracts.ops_algebra import h_onsite_algebra, h_operator_dicts
 
 import contracts.measure_bounded as MBD
-from contracts.measure_bounded import h_generator_latex, h_sample_probabilities
-BOUNDED_HARNESSES = {'h_onsite_algebra', 'h_operator_dicts', 'h_generator_latex', 'h_sample_probabilities'}
+from contracts.measure_bounded import h_generator_latex, h_sample_probabilities, h_generate_mpo_dtypes
+BOUNDED_HARNESSES = {'h_onsite_algebra', 'h_operator_dicts', 'h_generator_latex', 'h_sample_probabilities', 'h_generate_mpo_dtypes'}
 
 FUNCTIONS = FUNCTIONS + GM.FUNCTIONS
 NOT_DECIDED = [
